@@ -179,6 +179,8 @@ RULES = [
     ("C16-R1", "dispatch is exhaustive over the scalar functions", r1),
     ("C16-R2", "function -> primitive table and operand roles", r2),
     ("C16-R4", "composition: arguments are evaluated before dispatch", r4),
+    ("C16-R3", "argument handling never panics: panic sites of get_value and its helpers are guarded or reviewed [analysis P of C10]",
+     lambda ctx: __import__("c10").r1(ctx, only=lambda s: s.fn.startswith("function::get_value") or s.fn in ("util::capitalize", "util::format_filesize", "util::format_filesize::{closure#0}", "searcher::Searcher::get_function_value") or s.fn.startswith("util::datetime::parse_datetime"), rule_prefix="fn-")),
 ]
 
 EXPLANATION = (
